@@ -461,6 +461,79 @@ def _noisy_environment():
     _ENV['noisy'] = True
 
 
+def hammer(calls, threads=4, rounds=40, same=None):
+    """calls: list of (name, thunk): zero-argument LIBRARY calls whose result is a function of the call alone (the thunk returns
+    something comparable - bytes, a tuple, a verdict string; an ordinary exception counts as the result 'raises <Type>').
+    Every thunk is first called alone (the oracle). Then `threads` threads call all of them `rounds` times each at the same time
+    (tight loops, switch interval 1 us, every thread starting at another call): every result must equal the one obtained alone.
+    Where run_overlapping() overlaps whole checks (harness work included), this overlaps nothing but library calls, so the
+    window in which two calls share a scratch object is hit thousands of times. Returns None or Fail('two-threads/<name>')."""
+    import threading
+    same = same or (lambda a, b: a == b)
+
+    def run(thunk):
+        try:
+            return thunk()
+        except BudgetExceeded:
+            raise
+        except Exception as e:
+            return 'raises ' + type(e).__name__
+    alone = [run(t) for _, t in calls]
+    for (name, t), a in zip(calls, alone):          # a call that is not even repeatable alone is not this helper's business
+        if not same(run(t), a):
+            return None
+    found = []
+    barrier = threading.Barrier(threads)
+
+    def body(k):
+        try:
+            barrier.wait(timeout=60)
+        except threading.BrokenBarrierError:
+            return
+        n = len(calls)
+        for r in range(rounds):
+            for i in range(n):
+                if found:
+                    return
+                j = (i + k * (n // threads + 1)) % n
+                got = run(calls[j][1])
+                if not same(got, alone[j]):
+                    found.append((calls[j][0], repr(alone[j])[:300], repr(got)[:300]))
+                    return
+
+    old = sys.getswitchinterval()
+    sys.setswitchinterval(1e-6)
+    try:
+        ths = [threading.Thread(target=body, args=(k,), daemon=True) for k in range(threads)]
+        for th in ths:
+            th.start()
+        for th in ths:
+            th.join()
+    finally:
+        sys.setswitchinterval(old)
+    if found:
+        name, a, g = found[0]
+        return Fail(f'two-threads/{name}', f'{name}: alone -> {a}; while {threads - 1} other threads were calling the library -> {g}')
+    return None
+
+
+class fake_byteorder:
+    """`with fake_byteorder('big'):` - the library call inside sees sys.byteorder of the other kind of host. Nothing in the wire
+    formats depends on the host's byte order; code that consults sys.byteorder for them is wrong on half of the hosts."""
+
+    def __init__(self, order=None):
+        self.order = order or ('big' if sys.byteorder == 'little' else 'little')
+
+    def __enter__(self):
+        self.old = sys.byteorder
+        sys.byteorder = self.order
+        return self
+
+    def __exit__(self, *a):
+        sys.byteorder = self.old
+        return False
+
+
 def _shard_worker(args):
     prop_id, sub_name, shard, nshards, tier, seed, shrink_s = args
     if shard % 2 == 1 and os.environ.get('VERIF_PLAIN_ENV') != '1':
